@@ -11,6 +11,25 @@ LIST_MUTATORS = {"remove", "append", "insert", "pop", "extend", "clear", "sort",
 OWNER_MUTATORS = {"atoms": {"remove_atom", "add_atom", "create_atom"}, "residues": {"add_residue", "remove_residue"}}
 
 
+def reach_matches(stmt, root, atom_map, want):
+    """Does `stmt` execute (within one pass through root's body) exactly under the expected condition?
+    atom_map: atom text -> (variable, polarity) -- the tests the condition may be written with, in any arrangement of ifs, early
+    exits and boolean operators; want(values) -> True / False / None (either).  Returns (ok, text)."""
+    f = reach_formula(stmt, root)
+    atoms = list(formula_atoms(f))
+    foreign = [a for a in atoms if a not in atom_map]
+    if foreign:
+        return False, f"depends on tests outside the expected condition: {foreign}"
+    variables = sorted({v for v, _ in atom_map.values()})
+    for bits in itertools.product((False, True), repeat=len(variables)):
+        val = dict(zip(variables, bits))
+        got = eval_formula(f, {a: val[atom_map[a][0]] == atom_map[a][1] for a in atoms})
+        exp = want(val)
+        if exp is not None and got != exp:
+            return False, f"with {val}: reached={got}, expected {exp}"
+    return True, f"reached exactly under the expected condition (tests used: {atoms})"
+
+
 def rule_patch_isolation(prog, rep, rid):
     """apply_patch must give every patched residue a private copy of its reference (only PEPTIDE is applied in place)."""
     r = rep.rule(rid, "patches act on a private copy of the residue's reference; only PEPTIDE edits the shared one", floor=2)
